@@ -663,9 +663,13 @@ def _install(T):
             pass
         return (U, S, Vh)
 
-    @reg("numpy.ctypeslib.load_library", "ctypes.c_int", "ctypes.c_float", "ctypes.POINTER")
-    def opaque(I, *a, **k):
-        return Opaque("ctypes")
+    @reg("numpy.ctypeslib.load_library")
+    def load_library(I, *a, **k):
+        return Opaque("clib")
+
+    @reg("ctypes.c_int", "ctypes.c_float", "ctypes.c_double")
+    def c_scalar(I, v):
+        return v
 
     @reg("os.path.abspath", "os.path.dirname", "os.path.join")
     def ospath(I, *a, **k):
@@ -754,7 +758,7 @@ def value_attr(T, interp, obj, name):
                 return r
             return all_
         if name == "ctypes":
-            return Opaque("ctypes")
+            return Opaque("arrayptr", arr=obj)
         if name == "append" and obj.is_list:
             def append(v):
                 if obj.items is None:
@@ -811,6 +815,9 @@ def value_attr(T, interp, obj, name):
     if isinstance(obj, WhereResult):
         pass
     if isinstance(obj, Opaque):
+        if name == "data_as" and hasattr(obj, "arr"):
+            arr = obj.arr
+            return lambda *a, **k: Opaque("ptr", arr=arr)
         return Opaque(obj.tag + "." + name)
     return NotImplemented
 
